@@ -190,6 +190,79 @@ class Model:
         for m in self.modules.values():
             for c in m.classes.values():
                 c.bases = [self._resolve_base(m, b) for b in c.base_exprs]
+        if not os.environ.get("SA_NO_NORMALISE"):
+            self._normalise()
+
+    # ------------------------------------------------------------- normalise
+    def _normalise(self) -> None:
+        """Inline helpers that are not on the confirmed tree into their callers (see sa/inline.py and
+        sa/known_functions.txt).  Helpers whose every call site was inlined are *absorbed*: they are
+        taken out of the function index, so rules of the form "no other function does X" judge the
+        statement where it now runs."""
+        from .inline import Inliner  # late: inline imports this module
+
+        known_path = os.path.join(os.path.dirname(os.path.abspath(__file__)), "known_functions.txt")
+        with open(known_path, encoding="utf-8") as fh:
+            known = {l.strip() for l in fh if l.strip() and not l.startswith("#")}
+
+        def short(q: str) -> str:
+            parts = q.split(".")
+            return ".".join(parts[-2:])
+
+        new_helpers = {q: f for q, f in self.functions.items() if short(q) not in known and not f.name.startswith("__")}
+        self.absorbed: dict[str, FuncInfo] = {}
+        self.inlined_into: dict[str, list[str]] = {}
+        if not new_helpers:
+            return
+
+        def want(h: FuncInfo) -> bool:
+            return h.qname in new_helpers
+
+        views: dict[str, FuncInfo] = {}
+        for q, f in list(self.functions.items()):
+            inl = Inliner(self, want)
+            g = inl.view(f)
+            if g is not f:
+                views[q] = g
+                self.inlined_into[q] = list(dict.fromkeys(inl.inlined))
+        # which helpers still have a call site somewhere outside the candidate set?
+        cand = {q for q in new_helpers if any(q in v for v in self.inlined_into.values())}
+        while True:
+            names = {self.functions[q].name: q for q in cand}
+            leftover: set = set()
+            roots: list[ast.AST] = []
+            for q, f in self.functions.items():
+                if q in cand:
+                    continue
+                roots.append(views[q].node if q in views else f.node)
+            for m in self.modules.values():
+                for st in m.tree.body:
+                    if isinstance(st, ast.ClassDef):
+                        roots.extend(b for b in st.body if not isinstance(b, (ast.FunctionDef, ast.AsyncFunctionDef)))
+                    elif not isinstance(st, (ast.FunctionDef, ast.AsyncFunctionDef)):
+                        roots.append(st)
+            for r in roots:
+                for n in ast.walk(r):
+                    if isinstance(n, ast.Call):
+                        nm = n.func.attr if isinstance(n.func, ast.Attribute) else n.func.id if isinstance(n.func, ast.Name) else None
+                        if nm in names:
+                            leftover.add(names[nm])
+                    elif isinstance(n, ast.Attribute) and n.attr in names and not isinstance(getattr(n, "ctx", None), ast.Store):
+                        pass
+            if not leftover:
+                break
+            cand -= leftover
+        for q, g in views.items():
+            f = self.functions[q]
+            f.__dict__["raw_node"] = f.node
+            f.node = g.node
+        for q in cand:
+            f = self.functions.pop(q)
+            self.absorbed[q] = f
+            if f.cls is not None:
+                f.cls.methods.pop(f.name, None)
+            else:
+                f.module.functions.pop(f.name, None)
 
     def _index_module(self, m: ModuleInfo) -> None:
         is_pkg = m.path.endswith("__init__.py")
